@@ -8,6 +8,7 @@ import (
 	"go.nanomsg.org/mangos/v3"
 	"go.nanomsg.org/mangos/v3/protocol/pair"
 	"go.nanomsg.org/mangos/v3/protocol/xpub"
+	"go.nanomsg.org/mangos/v3/vh/c13"
 	"go.nanomsg.org/mangos/v3/vh/kit"
 	"go.nanomsg.org/mangos/v3/vh/vt"
 	"go.nanomsg.org/mangos/v3/vz/vexplore"
@@ -43,6 +44,8 @@ func init() {
 				NeedCounters: []string{"redial-after-protocol-refusal", "took-over-after-first-peer-left"}},
 			{Name: "dialer-close-during-dial", Mode: "sched", Bound: map[string]int{"quick": 2, "thorough": 3}[tier], Reset: kit.ResetGlobals, Body: closeDuringDial},
 			{Name: "dialed-connection-lost-while-attaching", Mode: "sched", Bound: map[string]int{"quick": 2, "thorough": 3}[tier], Reset: kit.ResetGlobals, Body: lostWhileAttaching},
+			{Name: "tcp-handshakes-aborted-then-peer", Mode: "enum", Reset: kit.ResetGlobals, Body: c13.TCPAborted},
+			{Name: "backoff-reset-when-lost-inside-the-attached-callback", Mode: "enum", Reset: kit.ResetGlobals, Body: lostInsideCallback, NeedCounters: []string{"backoff-was-reset"}},
 			{Name: "socket-close-vs-new-dialer", Mode: "sched", Bound: map[string]int{"quick": 2, "thorough": 3}[tier], Reset: kit.ResetGlobals, Body: closeVsNewDialer},
 		}
 	})
@@ -426,6 +429,74 @@ func lostWhileAttaching() {
 	if bad := kit.Census(); bad != "" {
 		kit.Failf("leak-after-close", "after the lost-while-attaching history and Close: %s", bad)
 	}
+}
+
+// lostInsideCallback: after n refused attempts (the delay has grown towards the maximum) a
+// connection attaches, and the peer drops it while the application's Attached callback is still
+// running.  The attach was successful: the delay is back at the initial value, so the next attempt
+// follows after about ReconnectTime, not after the grown delay.
+func lostInsideCallback() {
+	n := []int{2, 5, 9}[kit.ChooseFree(3)]
+	s, err := xpub.NewSocket()
+	if err != nil {
+		kit.Failf("setup", "NewSocket: %v", err)
+	}
+	min, max := 100*time.Millisecond, 3200*time.Millisecond
+	_ = s.SetOption(mangos.OptionReconnectTime, min)
+	_ = s.SetOption(mangos.OptionMaxReconnectTime, max)
+	ep := vt.Get("lic")
+	outcomes := []vt.DialOutcome{}
+	for i := 0; i < n; i++ {
+		outcomes = append(outcomes, vt.DialRefused)
+	}
+	ep.Script(vt.DialOK, outcomes...)
+	dropped := false
+	var attachedAt time.Duration
+	s.SetPipeEventHook(func(ev mangos.PipeEvent, p mangos.Pipe) {
+		if ev == mangos.PipeEventAttached && !dropped {
+			dropped = true
+			attachedAt = kit.Now()
+			vp := ep.PipeAt(ep.NumPipes() - 1)
+			vp.DropNow() // the peer hangs up while the callback runs ...
+			for i := 0; i < 200 && !vp.ClosedByMangos(); i++ {
+				kit.Yield() // ... and the library has dealt with the loss before the callback returns
+			}
+			for i := 0; i < 10; i++ {
+				kit.Yield()
+			}
+		}
+	})
+	if err := s.DialOptions("vt://lic", map[string]interface{}{mangos.OptionDialAsynch: true}); err != nil {
+		kit.Failf("setup", "Dial: %s", kit.ErrName(err))
+	}
+	kit.Quiesce()
+	for i := 0; i < 400 && !dropped; i++ {
+		kit.Sleep(200 * time.Millisecond)
+		kit.Quiesce()
+	}
+	if !dropped {
+		kit.Failf("dialer-gave-up", "after %d refusals no connection was attached within 8s", n)
+	}
+	kit.Sleep(max)
+	kit.Quiesce()
+	// the first attempt after the loss
+	var next time.Duration = -1
+	for _, dl := range ep.Dials {
+		if dl.At > attachedAt && (next < 0 || dl.At < next) {
+			next = dl.At
+		}
+	}
+	if next < 0 {
+		kit.Failf("dialer-gave-up", "%d refusals, then a connection attached and was lost while the Attached callback ran: no further attempt within %v", n, max)
+	}
+	// (every failure lets the delay grow by a factor of at least 1.1: a delay that was not reset is
+	// at least 1.1^n times ReconnectTime)
+	if gap := next - attachedAt; gap < min || gap >= min+min/12 {
+		kit.Failf("backoff-not-reset", "%d refusals (the delay had grown), then a connection attached and was lost while the Attached callback ran: the next attempt came %v later; after a successful attach the delay is back at ReconnectTime (%v)", n, gap, min)
+	}
+	kit.Count("backoff-was-reset")
+	kit.Observe("n=%d", n)
+	kit.Must("Close", func() { _ = s.Close() })
 }
 
 // closeVsNewDialer: the socket is closed while another goroutine creates and starts a dialer
